@@ -206,3 +206,37 @@ var Recursive = map[reflect.Type]bool{
 	reflect.TypeOf(Tree{}): true, reflect.TypeOf(PTree{}): true, reflect.TypeOf(MutA{}): true, reflect.TypeOf(MutB{}): true,
 	reflect.TypeOf(Tri1{}): true, reflect.TypeOf(Tri2{}): true, reflect.TypeOf(Tri3{}): true, reflect.TypeOf(Mixed{}): true,
 }
+
+// Invalid recursive definitions (for C08): the invalid field comes after a field that leads back to
+// the type through a map key, a slice, a pointer or a map value. Building their codec must fail and
+// must leave nothing usable behind in the instance.
+type BadKey struct {
+	Next *BadMid  `plenc:"1"`
+	Bad  chan int `plenc:"2"`
+}
+type BadMid struct {
+	ByKey map[BadKey]int `plenc:"1"`
+	Keys  []BadKey       `plenc:"2"`
+}
+type BadDup struct {
+	Kids []BadDup          `plenc:"1"`
+	M    map[string]BadDup `plenc:"2"`
+	A    int               `plenc:"3"`
+	B    int               `plenc:"3"`
+}
+type BadNoTag struct {
+	P *BadNoTagHolder `plenc:"1"`
+	X int
+}
+type BadNoTagHolder struct {
+	L []*BadNoTag         `plenc:"1"`
+	M map[int32]*BadNoTag `plenc:"2"`
+}
+type BadOpt struct {
+	Self *BadOpt            `plenc:"1"`
+	Ms   map[string]*BadOpt `plenc:"2"`
+	S    string             `plenc:"3,flat"`
+}
+
+// InvalidRecursive lists them
+var InvalidRecursive = []reflect.Type{reflect.TypeOf(BadKey{}), reflect.TypeOf(BadMid{}), reflect.TypeOf(BadDup{}), reflect.TypeOf(BadNoTag{}), reflect.TypeOf(BadNoTagHolder{}), reflect.TypeOf(BadOpt{})}
